@@ -869,7 +869,9 @@ def eval_params(case):
     fa = _forms(engine, fam, case["p1"])
     fb = _forms(engine, fam, case["p2"])
     da, db = fa[case["f1"] % len(fa)], fb[case["f2"] % len(fb)]
-    ev.labels += [f"fam={engine}/{fam}", "params-same" if case["p1"] == case["p2"] else "params-differ"]
+    # field order of a struct is part of the type: compare the parameterisations with their key order
+    same = json.dumps(case["p1"]) == json.dumps(case["p2"])
+    ev.labels += [f"fam={engine}/{fam}", "params-same" if same else "params-differ"]
     ev.nontrivial = True
     # string forms are scored through the print round trip only; every other form is a constructor / native instance
     # that the engine documents as accepted
@@ -878,7 +880,7 @@ def eval_params(case):
     eval_key(ev, engine, da, must="s" not in da, src="params")
     _CACHE.clear()
     eval_pair_into(ev, engine, da, db)
-    if case["p1"] == case["p2"]:
+    if same:
         r1, _, _ = _resolved(engine, da)
         r2, _, _ = _resolved(engine, db)
         if r1 is not None and r2 is not None and not (_eq(r1, r2) and _eq(r2, r1) and _hash(r1) == _hash(r2)):
